@@ -213,6 +213,21 @@ pub fn generate(tier: &str, seed: u64) -> Vec<Rec> {
         ps.extend(extra);
         out.push(Rec::new(code, ps, vs));
     }
+    // every ring degree up to 2^16: transform round trips (no product: the model is linear in N), so that a table or
+    // kernel-dispatch error at one particular N cannot hide
+    for logn in 3..=16u32 {
+        let n = 1usize << logn;
+        let bes: Vec<i128> = if tier == "thorough" || logn % 3 == 1 { vec![1, 2, 3, 4] } else { vec![1, 3] };
+        for be in bes {
+            let asize = if logn >= 14 { 1 } else { 2 };
+            let ps = vec![be, n as i128, 1, asize as i128, 0, 1, asize as i128, 0, 1, 1, 0, 1, 0];
+            out.push(Rec::new(7001, ps, vec![vals(&mut rng, n * asize, 45)]));
+            if logn <= 13 || tier == "thorough" {
+                let ps = vec![be, n as i128, 1, 1, 0, 1, 1, 0, 1, 1, 0];
+                out.push(Rec::new(7003, ps, vec![vals(&mut rng, n, 44), vals(&mut rng, n, 44)]));
+            }
+        }
+    }
     c07_ntt::generate(tier, &mut rng, &mut out);
     out
 }
